@@ -563,14 +563,27 @@ impl<'a, F: FeatureProvider, V: VariationInfo> CompilationCtx<'a, F, V> {
     }
 
     fn resolve_mark_attach_class(&mut self, glyphs: &typed::GlyphClass) -> u16 {
+        let range = glyphs.range();
         let glyphs = self.resolve_glyph_class(glyphs);
         let mark_set = glyphs.to_glyph_set();
         if let Some(id) = self.mark_attach_class_id.get(&mark_set) {
             return *id;
         }
 
+        // GDEF has a single MarkAttachClassDef, so a glyph can only be in one
+        // mark attachment class; which class won used to depend on map order.
+        if self
+            .mark_attach_class_id
+            .keys()
+            .any(|other| other.iter().any(|gid| mark_set.contains(gid)))
+        {
+            self.error(
+                range,
+                "glyph class overlaps another class used as a MarkAttachmentType",
+            );
+        }
+
         let id = self.mark_attach_class_id.len() as u16 + 1;
-        //FIXME: I don't understand what is not allowed here
 
         self.mark_attach_class_id.insert(mark_set, id);
         id
